@@ -48,6 +48,9 @@ func acceptedWorkload(c *fw.Ctx, scale int, emit emitFn) {
 	}
 	// the full grid type kind x reference form x place (deterministic)
 	typeUsageMatrix(emit)
+	// inheritance: an object with allOf, inside it an object with allOf, inside that one more - every combination of five
+	// rule values on three levels, in seven places (deterministic)
+	allOfGrid(emit)
 	// targeted generator
 	schemas := []string{
 		`{"id": 1}`, `{"id": "a"}`, `{"id": 1 // {min: 5}` + "\n}", `{"id": "abc" // {minLength: 10}` + "\n}", `{"id": @t}`, `{"id": @undefined}`,
@@ -80,7 +83,9 @@ func acceptedWorkload(c *fw.Ctx, scale int, emit emitFn) {
 		sb.WriteString(pick(types))
 		switch r.Intn(10) {
 		case 9: // ids that are different but are written the same way (the text of the id is the key in the catalog)
-			switch r.Intn(7) {
+			switch r.Intn(8) {
+			case 7: // different methods on paths that differ only in bytes that are not UTF-8: one path in every JSON text
+				sb.WriteString("GET /c\xff\n  200 any\nPOST /c\xfe\n  201 any\nDELETE /c\xff\xfe\n  204 empty\nPUT /c\xc3\x28\n  200 any\nPATCH /c\xa0\x28\n  200 any\n")
 			case 4: // names and paths with blanks at their ends (quoted): key, id and the fields must still agree
 				sb.WriteString("URL /rpc\n  Protocol json-rpc-2.0\n  Method \" ping\"\n    Result\n      1\n  Method \"get cats \"\n    Result\n      2\n  Method \"  x  \"\n    Result\n      3\nGET \"/p \"\n  200 any\nPOST \"/p  \"\n  200 any\n")
 			case 5: // runs of invalid bytes: encoding/json writes one U+FFFD per byte
@@ -124,5 +129,52 @@ func acceptedWorkload(c *fw.Ctx, scale int, emit emitFn) {
 			sb.WriteString("INFO\n  Title \"T\"\n  Version 1\n  Description\n    some *text*\nSERVER @s // srv\n  BaseUrl \"https://{env}.x.com\"\n    " + sch() + "\nGET /s\n  200 " + pick([]string{"any", "@t"}) + "\n")
 		}
 		emit("targeted", singleJob(id("tg"), []byte(sb.String()), false))
+	}
+}
+
+// allOfGrid: three nested objects, each with one of five allOf values (none, a plain type, a type that inherits itself, a type
+// with a shortcut key, a list of two types), written in a TYPE, a request body, a response body, Headers, Query, Params and Result.
+func allOfGrid(emit emitFn) {
+	types := "TYPE @base\n  {\"b\": 1}\nTYPE @mid\n  {\"m\": \"s\", \"m2\": [1]}\nTYPE @top\n  { // {allOf: \"@mid\"}\n    \"t\": true\n  }\n" +
+		"TYPE @str\n  \"k\"\nTYPE @sc\n  {\n    @str: 5,\n    \"plain\": null\n  }\n"
+	rules := []string{"", `"@base"`, `"@top"`, `"@sc"`, `["@base", "@mid"]`}
+	obj := func(ind string, a, b, c string) string {
+		r := func(v string) string {
+			if v == "" {
+				return ""
+			}
+			return " // {allOf: " + v + "}"
+		}
+		return "{" + r(a) + "\n" + ind + "  \"own1\": 1,\n" + ind + "  \"inner\": {" + r(b) + "\n" + ind + "    \"own2\": 2,\n" + ind + "    \"deeper\": {" + r(c) + "\n" + ind +
+			"      \"own3\": 3\n" + ind + "    },\n" + ind + "    \"list\": [\n" + ind + "      {" + r(b) + "\n" + ind + "        \"own4\": 4\n" + ind + "      }\n" + ind + "    ]\n" + ind + "  }\n" + ind + "}"
+	}
+	n := 0
+	for _, a := range rules {
+		for _, b := range rules {
+			for _, c := range rules {
+				for place := 0; place < 7; place++ {
+					var sb strings.Builder
+					sb.WriteString("JSIGHT 0.3\n" + types)
+					switch place {
+					case 0:
+						sb.WriteString("TYPE @grid\n  " + obj("  ", a, b, c) + "\nGET /g\n  200 @grid\nPOST /g\n  200\n    { // {allOf: \"@grid\"}\n      \"more\": 1\n    }\n")
+					case 1:
+						sb.WriteString("POST /g\n  Request\n    " + obj("    ", a, b, c) + "\n  200 any\n")
+					case 2:
+						sb.WriteString("GET /g\n  200\n    " + obj("    ", a, b, c) + "\n")
+					case 3:
+						sb.WriteString("GET /g\n  200\n    Headers\n      " + obj("      ", a, b, c) + "\n    Body any\n")
+					case 4:
+						sb.WriteString("GET /g\n  Query \"q=1\"\n    " + obj("    ", a, b, c) + "\n  200 any\n")
+					case 5:
+						sb.WriteString("URL /rpc\n  Protocol json-rpc-2.0\n  Method m\n    Params\n      " + obj("      ", a, b, c) + "\n    Result any\n")
+					case 6:
+						sb.WriteString("URL /rpc\n  Protocol json-rpc-2.0\n  Method m\n    Params any\n    Result\n      " + obj("      ", a, b, c) + "\n")
+					}
+					n++
+					emit("allof-grid", singleJob(fmt.Sprintf("allof-%d", n), []byte(sb.String()), false))
+				}
+			}
+		}
 	}
 }
